@@ -277,6 +277,7 @@ type fileState struct {
 	content []byte
 	okHot   bool // complete content present under the final name
 	okCold  bool
+	lost    bool // already reported as complete in no tier
 }
 
 type finding struct{ rule, msg string }
@@ -308,6 +309,7 @@ type world struct {
 	crashes   int
 	faultsHit int
 	lastMut   string
+	reconcile bool // the cycle has reached ReconcileOrphanedFiles
 
 	findings []finding
 }
@@ -472,6 +474,18 @@ func (w *world) install() {
 			tier, rel := w.tierOf(p)
 			if i, ok := w.byPath[filepath.ToSlash(rel)]; ok && tier != "" {
 				w.lastMut = w.fsClass(op)
+				if err == nil {
+					switch {
+					case w.lastMut == "hot.remove.data" && w.reconcile:
+						simrt.Probe("reconcile_deleted_orphan")
+					case w.lastMut == "hot.remove.data":
+						simrt.Probe("source_deleted_after_migration")
+					case w.lastMut == "cold.remove.data":
+						simrt.Probe("destination_rolled_back")
+					case w.lastMut == "cold.rename.part":
+						simrt.Probe("cold_copy_promoted")
+					}
+				}
 				w.recheck(i)
 				w.checkA(i, "after-"+w.lastMut)
 			}
@@ -483,6 +497,9 @@ func (w *world) install() {
 			return nil
 		}
 		class := sqlClass(kind, q)
+		if class == "sql.q_recent_migrated" {
+			w.reconcile = true
+		}
 		if kind == "exec" {
 			simrt.Event("SQL %s", class)
 			if w.counting {
@@ -521,9 +538,10 @@ func (w *world) recheck(i int) {
 // of every file is present in at least one tier.
 func (w *world) checkA(i int, when string) {
 	f := w.files[i]
-	if f.okHot || f.okCold {
+	if f.okHot || f.okCold || f.lost {
 		return
 	}
+	f.lost = true
 	cold := "absent"
 	if b, err := os.ReadFile(filepath.Join(w.coldDir, filepath.FromSlash(f.path))); err == nil {
 		cold = fmt.Sprintf("incomplete(%d of %d bytes)", len(b), len(f.content))
@@ -657,7 +675,7 @@ func (w *world) normaliseStamps(at time.Time) {
 
 // cycle runs one migration cycle (plus concurrent tier look-ups).
 func (w *world) cycle(idx int, clean bool) bool {
-	w.cycleIdx, w.noFaults, w.classN, w.inCycle = idx, clean, map[string]int{}, true
+	w.cycleIdx, w.noFaults, w.classN, w.inCycle, w.reconcile = idx, clean, map[string]int{}, true, false
 	simrt.Event("CYCLE %d clean=%v", idx, clean)
 	var q *simrt.Task
 	if w.p.Queries > 0 {
@@ -831,6 +849,22 @@ func (w *world) evalB() []finding {
 				}
 			}
 			sort.Strings(tiersRead)
+			// what the metadata table says right now (bypassing the look-up cache)
+			var fresh []string
+			rows, err := w.db.Query(`SELECT DISTINCT tier FROM tier_files WHERE database = ? AND measurement = ? ORDER BY tier`, pr[0], pr[1])
+			if err != nil {
+				panic("HARNESS-ERROR " + err.Error())
+			}
+			for rows.Next() {
+				var t string
+				rows.Scan(&t)
+				fresh = append(fresh, t)
+			}
+			rows.Close()
+			cache := ""
+			if len(fresh) > 0 && strings.Join(fresh, ",") != strings.Join(tiersRead, ",") {
+				cache = ".stale-tier-lookup-cache"
+			}
 			for i, f := range w.files {
 				if f.spec.DB != pr[0] || f.spec.Meas != pr[1] || count[i] == 1 {
 					continue
@@ -849,10 +883,11 @@ func (w *world) evalB() []finding {
 				case f.okCold:
 					where = "cold-only"
 				}
+				det := fmt.Sprintf("tiers read by the query: %v; tiers in the metadata table: %v; file complete in: %s; file's tier metadata: %s", tiersRead, fresh, where, meta)
 				if count[i] == 0 {
-					add(fmt.Sprintf("C12.rows-invisible.file-in-%s.metadata-%s", where, meta), "%d rows of %s are read 0 times by a query on %s/%s (tiers read: %v; file complete in: %s; tier metadata: %s)", f.spec.Rows, f.path, pr[0], pr[1], tiersRead, where, meta)
+					add(fmt.Sprintf("C12.rows-invisible%s.file-in-%s.metadata-%s", cache, where, meta), "%d rows of %s are read 0 times by a query on %s/%s (%s)", f.spec.Rows, f.path, pr[0], pr[1], det)
 				} else {
-					add(fmt.Sprintf("C12.rows-visible-%d-times.file-in-%s.metadata-%s", count[i], where, meta), "%d rows of %s are read %d times by a query on %s/%s (tiers read: %v; file complete in: %s; tier metadata: %s)", f.spec.Rows, f.path, count[i], pr[0], pr[1], tiersRead, where, meta)
+					add(fmt.Sprintf("C12.rows-visible-%d-times%s.file-in-%s.metadata-%s", count[i], cache, where, meta), "%d rows of %s are read %d times by a query on %s/%s (%s)", f.spec.Rows, f.path, count[i], pr[0], pr[1], det)
 				}
 			}
 		}
@@ -894,12 +929,6 @@ func exec(p *C12Plan, cfg simrt.Config, crashAt int, contents [][]byte) *execRes
 		if f := w.evalB(); len(f) > 0 {
 			panic("HARNESS-ERROR initial state violates visibility: " + f[0].msg)
 		}
-		tag := func(s string) string {
-			if crashAt >= 0 {
-				return s + ".crash-run"
-			}
-			return s
-		}
 		// cycle 0: planned step failures, enumerated crash point
 		w.counting, w.pt, w.crashAt = true, 0, crashAt
 		alive := w.cycle(0, false)
@@ -934,21 +963,31 @@ func exec(p *C12Plan, cfg simrt.Config, crashAt int, contents [][]byte) *execRes
 		w.checkAll("end-of-clean-cycle")
 		first := w.evalB()
 		if len(first) > 0 {
-			// classification only: does one more fault-free cycle repair it?
+			// classification only: does it heal when the tier look-up cache
+			// expires, or with one more fault-free cycle?
+			simrt.AdvanceClock(tiering.VerifTierCacheTTL() + time.Second)
+			has := func(fs []finding, rule string) bool {
+				for _, f := range fs {
+					if f.rule == rule {
+						return true
+					}
+				}
+				return false
+			}
+			afterTTL := w.evalB()
 			if !w.cycle(3, true) {
 				panic("HARNESS-ERROR node died during the second fault-free cycle")
 			}
 			second := w.evalB()
-			still := map[string]bool{}
-			for _, f := range second {
-				still[f.rule] = true
-			}
 			for _, f := range first {
-				sfx := ".after-one-clean-cycle.repaired-by-a-second"
-				if still[f.rule] {
-					sfx = ".after-clean-cycles.persistent"
+				sfx := ".after-clean-cycle.until-cache-ttl-expires"
+				if has(afterTTL, f.rule) {
+					sfx = ".after-clean-cycle.repaired-by-a-second-cycle"
+					if has(second, f.rule) {
+						sfx = ".after-clean-cycles.persistent"
+					}
 				}
-				w.violate(tag(f.rule+sfx), "%s", f.msg)
+				w.violate(f.rule+sfx, "%s", f.msg)
 			}
 		}
 		for _, f := range w.files {
@@ -1064,6 +1103,13 @@ func shrinkC12(planAny any) []any {
 		q := cp()
 		q.Faults = append(q.Faults[:i], q.Faults[i+1:]...)
 		out = append(out, q)
+	}
+	for i, f := range p.Faults {
+		if f.Cycle == 1 { // the same failure in the first cycle, without any crash
+			q := cp()
+			q.Faults[i].Cycle, q.CrashCap = 0, 0
+			out = append(out, q)
+		}
 	}
 	for i := range p.Files {
 		if len(p.Files) > 1 {
